@@ -83,7 +83,7 @@ theorem gitSection_of_diff (ho : GuessOpts o pname) (hs0 : CleanStart s0) (hname
     ∃ patch0 info par1 par2 r,
       GitSection o (forced o) (loopStart s0 (gitDiffLines name ix hs)) name bytes m patch0
         { patch0 with hunks := hs } info par1 par2 r ∧
-      render o.newlineOutput r.out = renderLines o.newlineOutput (splice (splitLines bytes) 0 hs) ∧
+      render o.newlineOutput r.out = Render.renderText o.newlineOutput (splice (splitLines bytes) 0 hs) ∧
       par2.s.eof = true := by
   have hA : str "a/" ++ name = 97 :: 47 :: name := by rw [Names.str_a]; rfl
   have hB : str "b/" ++ name = 98 :: 47 :: name := by rw [Names.str_b]; rfl
@@ -105,7 +105,7 @@ theorem gitSection_of_diff (ho : GuessOpts o pname) (hs0 : CleanStart s0) (hname
     applyPatch_valid (splitLines bytes) hs { patch0 with hunks := hs } (applyOptsOf o)
       (Option.map (fun l => List.map (fun a => !List.isEmpty a && List.head? a != some 110) l) s0.tty)
       hvalid (by rw [hrev]; rfl) ho.noDefine ho.fuzz
-  refine ⟨patch0, info, par1, par2, r, ?_, by rw [render, hrout], heof⟩
+  refine ⟨patch0, info, par1, par2, r, ?_, C01.render_of_lines _ ho.noDefine hap hrout, heof⟩
   exact {
     noOperand := ho.noOperand,
     oldPath := by rw [hop0, hsta],
@@ -133,20 +133,20 @@ theorem C01_run_git_deferred (ho : GuessOpts o pname) (hreal : o.dryRun = false)
     ∃ s1 : DState,
       (sectionLoop o (forced o) ((gitDiffLines name ix hs).length + 2)).run (loopStart s0 (gitDiffLines name ix hs)) = (.ok (), s1) ∧
       s1.fs = s0.fs ∧ s1.trace = s0.trace ++ tmpOps ∧
-      s1.dWrites = [deferredOf name (renderLines o.newlineOutput (splice (splitLines bytes) 0 hs)) 0
+      s1.dWrites = [deferredOf name (Render.renderText o.newlineOutput (splice (splitLines bytes) 0 hs)) 0
                       { oldPerms := some m, needFix := false, hadFailure := false } false] ∧
       s1.dRemovals = [] ∧
       (processPatchM o).run s0 = (finalizeDeferred o).run s1 ∧
       runPatch o s0 = (0, { s1 with
-        fs := s0.fs.set name (.file (renderLines o.newlineOutput (splice (splitLines bytes) 0 hs)) m),
-        trace := s0.trace ++ tmpOps ++ resultOps name (renderLines o.newlineOutput (splice (splitLines bytes) 0 hs)) m,
+        fs := s0.fs.set name (.file (Render.renderText o.newlineOutput (splice (splitLines bytes) 0 hs)) m),
+        trace := s0.trace ++ tmpOps ++ resultOps name (Render.renderText o.newlineOutput (splice (splitLines bytes) 0 hs)) m,
         opCount := s1.opCount + (dirPrefixes name).length +
-          (resultOps name (renderLines o.newlineOutput (splice (splitLines bytes) 0 hs)) m).length }) := by
+          (resultOps name (Render.renderText o.newlineOutput (splice (splitLines bytes) 0 hs)) m).length }) := by
   obtain ⟨patch0, info, par1, par2, r, H, hrender, heof⟩ :=
     gitSection_of_diff ho hs0 hname hnn htarget hw hd hsa hsb hvalid
   obtain ⟨s1, hrun, hfs, htr, _, hdone⟩ := processSection_git H hreal
   have hloop := sectionLoop_one o (forced o) (gitDiffLines name ix hs).length _ s1 rfl hrun (by rw [hdone.par]; exact heof)
-  have hdw : s1.dWrites = [deferredOf name (renderLines o.newlineOutput (splice (splitLines bytes) 0 hs)) 0
+  have hdw : s1.dWrites = [deferredOf name (Render.renderText o.newlineOutput (splice (splitLines bytes) 0 hs)) 0
       { oldPerms := some m, needFix := false, hadFailure := false } false] := by
     rw [hdone.dWrites, ← hrender]
     show s0.dWrites ++ _ = _
@@ -182,10 +182,10 @@ theorem C01_run_git_gen (ho : GuessOpts o pname) (hreal : o.dryRun = false) (hs0
     (hsa : stripPath (str "a/" ++ name) o.strip = name) (hsb : stripPath (str "b/" ++ name) o.strip = name)
     (hvalid : Valid (splitLines bytes) 0 0 hs) :
     (runPatch o s0).1 = 0 ∧
-    (runPatch o s0).2.fs.lookup name = some (.file (renderLines o.newlineOutput (splice (splitLines bytes) 0 hs)) m) ∧
+    (runPatch o s0).2.fs.lookup name = some (.file (Render.renderText o.newlineOutput (splice (splitLines bytes) 0 hs)) m) ∧
     (∀ q, q ≠ name → (runPatch o s0).2.fs.lookup q = s0.fs.lookup q) ∧
     (runPatch o s0).2.trace =
-      s0.trace ++ tmpOps ++ resultOps name (renderLines o.newlineOutput (splice (splitLines bytes) 0 hs)) m := by
+      s0.trace ++ tmpOps ++ resultOps name (Render.renderText o.newlineOutput (splice (splitLines bytes) 0 hs)) m := by
   obtain ⟨s1, _, _, _, _, _, _, hrun⟩ :=
     C01_run_git_deferred ho hreal hs0 hname hnn hdir hpre hpn hpd htarget hw hpatch hd hsa hsb hvalid
   rw [hrun]
@@ -269,10 +269,10 @@ theorem C01_run_git (o : Options) (s0 : DState) (name pname bytes : Bytes) (ix :
     (hpatch : s0.fs.lookup pname = some (.file (gitDiffText name ix hs) pm))
     (hh : GitHunks hs) (hvalid : Valid (splitLines bytes) 0 0 hs) :
     (runPatch o s0).1 = 0 ∧
-    (runPatch o s0).2.fs.lookup name = some (.file (renderLines o.newlineOutput (splice (splitLines bytes) 0 hs)) m) ∧
+    (runPatch o s0).2.fs.lookup name = some (.file (Render.renderText o.newlineOutput (splice (splitLines bytes) 0 hs)) m) ∧
     (∀ q, q ≠ name → (runPatch o s0).2.fs.lookup q = s0.fs.lookup q) ∧
     (runPatch o s0).2.trace =
-      s0.trace ++ tmpOps ++ resultOps name (renderLines o.newlineOutput (splice (splitLines bytes) 0 hs)) m :=
+      s0.trace ++ tmpOps ++ resultOps name (Render.renderText o.newlineOutput (splice (splitLines bytes) 0 hs)) m :=
   C01_run_git_gen ho hreal hs0 hn.1 (flat_ne_devNull hn.2.1) (dirExists_parent_of_noSlash s0.fs hn.2.1)
     (RunB.dirsThere_flat s0.fs hn.2.1) hpn hpd htarget hw hpatch (gitDiff_of_flat hn hix hh)
     (by rw [hstrip]; exact strip_a hn) (by rw [hstrip]; exact strip_b hn) hvalid
@@ -323,7 +323,7 @@ theorem ixOk : ∀ x, some ixv = some x → endField x := by
   intro x hx; cases hx; decide
 
 -- what the script means
-theorem meaning : renderLines o.newlineOutput (splice (splitLines bytes) 0 [hk]) = result := by decide
+theorem meaning : Render.renderText o.newlineOutput (splice (splitLines bytes) 0 [hk]) = result := by decide
 
 /-- the theorem applies: all its hypotheses hold of the instance (discharged in the kernel) -/
 theorem applies :
@@ -391,7 +391,7 @@ theorem applies_fill :
   have h := C01_run_git o sE name pname [] none 0o644 0o644 [add1] guessOpts rfl rfl ⟨rfl, rfl, rfl, rfl, rfl, rfl⟩
     (by decide) (by intro x hx; cases hx) (by decide) (by decide) (by decide) (by decide) rfl
     { nonEmpty := by decide, writable := by decide } (validB_sound _ _ _ _ (by decide))
-  have hm : renderLines o.newlineOutput (splice (splitLines []) 0 [add1]) = [97, 10] := by decide
+  have hm : Render.renderText o.newlineOutput (splice (splitLines []) 0 [add1]) = [97, 10] := by decide
   rw [hm] at h
   exact ⟨h.1, h.2.1⟩
 #guard (runPatch o sE).1 == 0 && (runPatch o sE).2.fs.lookup name == some (.file (str "a\n") 0o644)
@@ -475,7 +475,7 @@ theorem renameSection_of_text (ho : GuessOpts o pname) (hstrip : o.strip = 1) (h
       perfect := true, rejected := [], applied := [], msgs := [],
       patch := { format := .git, operation := .rename, oldPath := old, newPath := new },
       tty := Option.map (fun l => List.map (fun a => !List.isEmpty a && List.head? a != some 110) l) s0.tty },
-    ?_, render_copy_all o.newlineOutput (splitLines bytes), heof⟩
+    ?_, render_copy_all o.newlineOutput (splitLines bytes) (Render.linesTerminated_splitLines bytes), heof⟩
   exact {
     noOperand := ho.noOperand, noOut := ho.noOut, noBackup := ho.noBackup, noReverse := ho.noReverse,
     oldNe := hold.1, oldNotNull := flat_ne_devNull hold.2.1, newNe := hnew.1, newFlat := RunB.dirPrefixes_flat hnew.2.1,
